@@ -156,6 +156,9 @@ func tabulate(cfg Config, g *core.Graph, sig *types.Signature, rootObj *types.Fu
 			region.bindLocals(st)
 		}
 		in.stack = []*types.Func{rootObj}
+		if region != nil {
+			st = region.runPrelude(in, st)
+		}
 		exits := in.runGraph(g, st, sig)
 		row := Row{Valuation: val}
 		seen := map[string]bool{}
